@@ -58,6 +58,107 @@ def _resolve_visitor(cls, name):
     return None, None
 
 
+PARAM_FIELDS = {"posonlyargs", "args", "kwonlyargs", "vararg", "kwarg", "arg"}
+CTX_ADDERS = {"ctxadd", "ctxupdate", "add", "update"}
+
+
+def _ctx_level(e, ctx_props):
+    """the level of the scope stack an expression names: "top" (innermost: `self.contexts[-1]` or a read-only
+    property returning it), an int (`self.contexts[1]`, `self._global_ctx`), "?" for another subscript of the
+    stack, None if the expression is not a level of the stack at all"""
+    k = None
+    if isinstance(e, ast.Subscript) and unparse(e.value) == "self.contexts":
+        s_ = e.slice
+        k = -const_value(s_.operand, 0) if isinstance(s_, ast.UnaryOp) and isinstance(s_.op, ast.USub) else const_value(s_, None)
+        if not isinstance(k, int) or isinstance(k, bool):
+            return "?"
+    elif isinstance(e, ast.Attribute) and unparse(e.value) == "self" and e.attr in ctx_props:
+        k = ctx_props[e.attr]
+        if not isinstance(k, int) or isinstance(k, bool):
+            return "?"
+    if k is None:
+        return None
+    return "top" if k == -1 else k
+
+
+def _ctx_aliases(fn, ctx_props, defs=None):
+    """locals that hold one level of the scope stack and nothing else (`scope = self.contexts[-1]`): name -> [Def]"""
+    defs = defs if defs is not None else df.all_defs(fn)
+    out = {}
+    for n_, ds in defs.items():
+        if "." not in n_ and ds and all(d.kind == "assign" and d.value is not None and _ctx_level(d.value, ctx_props) is not None for d in ds):
+            out[n_] = ds
+    return out
+
+
+def _ctx_mutator_calls(fn, ctx_props, defs=None):
+    """calls that change a scope of the context stack: the transformer's own ctx* helpers, a set method on a level of
+    `self.contexts` (directly, through the property that names a level, or through a local holding a level)"""
+    al = _ctx_aliases(fn, ctx_props, defs)
+    out = []
+    for c in calls_in(fn):
+        if last_attr(c) not in CTX_MUTATORS or getattr(stmt_of(c), "_xv_call_marker", False):
+            continue
+        f = c.func
+        if unparse(f).startswith("self.ctx") or unparse(f).startswith("self.contexts"):
+            out.append(c)
+        elif isinstance(f, ast.Attribute) and isinstance(f.value, ast.Attribute) and unparse(f.value.value) == "self" and f.value.attr in ctx_props:
+            out.append(c)
+        elif isinstance(f, ast.Attribute) and isinstance(f.value, ast.Name) and f.value.id in al:
+            out.append(c)
+    return out
+
+
+def _field_provenance(fn, defs=None, cfg=None):
+    """fields(expr, at=None) -> the attribute names the value of ``expr`` is derived from.  Local names are followed
+    through all their definitions (assignment, unpacking, loop variable over a collection, with-target) and through
+    the in-place growth of local collections (`xs.append(e)`, `xs.extend(es)`, `xs.add(e)`, `xs.update(es)`), so
+    it does not matter whether the names are collected by one generator over a chain of lists or by nested loops.
+    With a CFG and a use site ``at`` only definitions / growth statements from which the use can be reached count
+    (a local that is reused later for something else does not leak backwards)."""
+    defs = defs if defs is not None else df.all_defs(fn)
+    grow = {}
+    for c in calls_in(fn):
+        if isinstance(c.func, ast.Attribute) and isinstance(c.func.value, ast.Name) and c.func.attr in ("update", "add", "append", "extend"):
+            grow.setdefault(c.func.value.id, []).append(c)
+    fwd = {}
+
+    def reaches(stmt, at):
+        if cfg is None or at is None:
+            return True
+        ns = cfg.nodes_of(stmt) if isinstance(stmt, ast.stmt) else []
+        if not ns:
+            return True  # a parameter, or a statement the CFG does not show on its own: keep (over-approximation)
+        for n_ in ns:
+            if id(n_) not in fwd:
+                fwd[id(n_)] = set(cfg.reach([n_], include_starts=True))
+            if at in fwd[id(n_)]:
+                return True
+        return False
+
+    def fields(e, at=None):
+        got, seen = set(), set()
+
+        def absorb(x):
+            for n in ast.walk(x):
+                if isinstance(n, ast.Attribute):
+                    got.add(n.attr)
+                elif isinstance(n, ast.Name) and n.id not in seen and n.id != "self":
+                    seen.add(n.id)
+                    for d in defs.get(n.id, []):
+                        if d.value is not None and reaches(d.stmt, at):
+                            absorb(d.value)
+                    for g in grow.get(n.id, []):
+                        if reaches(stmt_of(g), at):
+                            for a_ in g.args:
+                                absorb(a_)
+
+        absorb(e)
+        return got
+
+    return fields
+
+
 def check(ctx):
     ctx.not_decided += [
         "that the transformed tree equals CPython's for every program and binding context",
@@ -99,29 +200,12 @@ def check(ctx):
         # names registered: arguments of the context mutators, traced back through local
         # names (assignments, loop targets, and in-place growth of local collections)
         defs = df.all_defs(fn)
-        grow = {}  # local collection name -> expressions added to it in place
-        for c in calls_in(fn):
-            if isinstance(c.func, ast.Attribute) and isinstance(c.func.value, ast.Name) and c.func.attr in ("update", "add", "append", "extend"):
-                grow.setdefault(c.func.value.id, []).extend(c.args)
-        muts = [c for c in calls_in(fn) if last_attr(c) in CTX_MUTATORS and (unparse(c.func).startswith("self.ctx") or unparse(c.func).startswith("self.contexts") or (isinstance(c.func, ast.Attribute) and isinstance(c.func.value, ast.Attribute) and unparse(c.func.value.value) == "self" and c.func.value.attr in CTX_PROPS))]
+        fields_of = _field_provenance(fn, defs)
+        muts = _ctx_mutator_calls(fn, CTX_PROPS, defs)
         got = set()
-        seen_names = set()
-
-        def absorb(e):
-            for n in ast.walk(e):
-                if isinstance(n, ast.Attribute):
-                    got.add(n.attr)
-                elif isinstance(n, ast.Name) and n.id not in seen_names and n.id not in ("self",):
-                    seen_names.add(n.id)
-                    for d in defs.get(n.id, []):
-                        if d.value is not None:
-                            absorb(d.value)
-                    for g in grow.get(n.id, []):
-                        absorb(g)
-
         for c in muts:
             for a in c.args:
-                absorb(a)
+                got |= fields_of(a)
         ctx.ob("R1", st, f"registers names with the context ({len(muts)} context update(s))", bool(muts), key=f"no-ctx-update|{construct}", where=loc(fn))
         if construct != "Delete":
             # a binding construct never makes a name *less* bound for the lines that follow: whether the clause/body runs is
@@ -261,9 +345,38 @@ def check(ctx):
         ok = bool(adds) and bool(push) and all(cfg.dominated(p, lambda m: m in adds) for p in push)
         ctx.ob("R3", st, "the defined name is registered in the enclosing scope before the body scope is pushed", ok, key=f"{construct}|name-in-inner-scope", where=loc(fn))
         if construct == "FunctionDef":
-            upd = [n for n in cfg.nodes if n.kind == "stmt" and any(call_name(c) == "self.ctxupdate" for c in calls_in(n.ast))]
-            ok = bool(upd) and all(cfg.dominated(u, lambda m: m in push) for u in upd)
-            ctx.ob("R3", st, "parameters are registered in the body scope (after the push)", ok, key="FunctionDef|params-outer-scope", where=loc(fn))
+            # a parameter registration is found by its ROLE: a call that adds to a scope of the stack and whose argument is
+            # derived from the parameter fields of the definition - whichever helper (`ctxupdate` with one iterable,
+            # `ctxadd` in a loop, the set itself) does it.  What must hold for each: the scope written to is the innermost
+            # one, and "innermost" is evaluated after the push of the body scope and never after its pop.
+            fdefs = df.all_defs(fn)
+            fields_of = _field_provenance(fn, fdefs, cfg)
+            aliases = _ctx_aliases(fn, CTX_PROPS, fdefs)
+            regs = []  # (call, node of the call, nodes where the written scope is looked up, level)
+            for c in _ctx_mutator_calls(fn, CTX_PROPS, fdefs):
+                if last_attr(c) not in CTX_ADDERS:
+                    continue
+                for n in node_in(cfg, stmt_of(c), "context registration"):
+                    if not any(fields_of(a, n) & PARAM_FIELDS for a in c.args):
+                        continue  # registers something else (the definition's own name: judged above)
+                    recv = c.func.value if isinstance(c.func, ast.Attribute) else None
+                    if call_name(c) in ("self.ctxadd", "self.ctxupdate"):
+                        levels, look = {"top"}, [n]
+                    elif isinstance(recv, ast.Name) and recv.id in aliases:
+                        levels = {_ctx_level(d.value, CTX_PROPS) for d in aliases[recv.id]}
+                        look = [m for d in aliases[recv.id] for m in node_in(cfg, d.stmt, "scope alias")] + [n]
+                    else:
+                        levels, look = {_ctx_level(recv, CTX_PROPS) if recv is not None else None}, [n]
+                    if levels & {"?", None}:
+                        raise AnalysisError(f"{st}: cannot tell which scope `{short(c, 60)}` writes the parameters to")
+                    regs.append((c, n, look, levels))
+            bad = [c for c, n, look, levels in regs if levels != {"top"} or not all(cfg.dominated(m, lambda x: x in push) for m in look)]
+            late = None
+            if regs and pop and not bad:
+                lookups = {m for _c, _n, look, _l in regs for m in look}
+                fine, late = cfg.never_after(pop, lambda m: m in lookups)
+            ok = bool(regs) and bool(push) and not bad and late is None
+            ctx.ob("R3", st, "parameters are registered in the body scope (after the push)", ok, key="FunctionDef|params-outer-scope", where=loc(bad[0]) if bad else loc(fn), detail=(f"`{short(bad[0], 60)}` does not write to the scope pushed for the body" if bad else "a parameter registration can run after the body scope was popped" if late else "no registration derived from the parameter fields" if not regs else None), path=cfg.fmt_path(late) if late else None)
     vc = class_methods(cls).get("visit_comprehension")
     ok = vc is not None and not any(call_name(c) in ("self.generic_visit", "self.visit", "self.try_subproc_toks") for c in calls_in(vc))
     ctx.ob("R3", f"{AS}:CtxAwareTransformer.visit_comprehension", "comprehensions are never descended into (their targets are local)", ok, key="comprehension-descends")
